@@ -1122,9 +1122,16 @@ fn gen_op(g: &mut Gen, rng: &mut Rng, _ses: &mut Session) -> String {
             let x = *rng.pick(&cur);
             if rng.chance(1, 2) { ms.insert(0, (x.0, g.count(rng))) } else { ms.push((x.0, g.count(rng))) }
         }
+        // a mint count above the whale cap: `add_members` does not look at the cap
+        let mut overcap = 0;
+        if let (Some(c), true, false) = (g.whale, rng.chance(1, 8), ms.is_empty()) {
+            let i = rng.below(ms.len() as u64) as usize;
+            ms[i].1 = c + 1;
+            overcap = 1;
+        }
         let existing = ms.iter().filter(|m| cur.iter().any(|c| c.0 == m.0)).count();
         let distinct_new: BTreeSet<u64> = ms.iter().map(|m| m.0).filter(|a| !cur.iter().any(|c| c.0 == *a)).collect();
-        g.cls = format!("{}:add:new{}:room{}:existing{}:sender{}:tip{}", kind.tag(), cmp_class(distinct_new.len() as u64, room), room.min(2), existing.min(2), sender, tip.min(1));
+        g.cls = format!("{}:add:new{}:room{}:existing{}:sender{}:tip{}:overcap{}", kind.tag(), cmp_class(distinct_new.len() as u64, room), room.min(2), existing.min(2), sender, tip.min(1), overcap);
         format!("add sender={sender} now={now} tip={tip} stage={stage} members={} pg={pg}", fmt_members(&ms))
     } else if roll < 58 {
         // remove
@@ -1173,8 +1180,15 @@ fn gen_op(g: &mut Gen, rng: &mut Rng, _ses: &mut Session) -> String {
         }
         let n = match rng.below(4) { 0 => room as usize, 1 => room as usize + 1, _ => rng.range(0, 3) as usize }.min(g.valid.len());
         let (d2, i2) = (rng.chance(1, 3), fault && rng.chance(1, 8));
-        let ms = g.members(rng, n, d2, i2);
-        g.cls = format!("{}:addstage:{}:ns{}:n{}:sender{}", kind.tag(), tag, ns, cmp_class(n as u64, room), sender);
+        let mut ms = g.members(rng, n, d2, i2);
+        // tiered-flex `add_stage` does enforce the whale cap
+        let mut overcap = 0;
+        if let (Some(c), true, false) = (g.whale, rng.chance(1, 8), ms.is_empty()) {
+            let i = rng.below(ms.len() as u64) as usize;
+            ms[i].1 = c + 1;
+            overcap = 1;
+        }
+        g.cls = format!("{}:addstage:{}:ns{}:n{}:sender{}:overcap{}", kind.tag(), tag, ns, cmp_class(n as u64, room), sender, overcap);
         format!("addstage sender={sender} now={now2} tip={tip} start={start} end={end} members={} pg={pg}", fmt_members(&ms))
     } else if roll < 90 && (tiered || rng.chance(1, 6)) {
         let started = g.times.get(stage as usize).map(|t| now >= t.0).unwrap_or(false);
@@ -1419,7 +1433,7 @@ fn main() {
     let depth = ses.scale(3, 4) as usize;
     exhaustive(&mut ses, &mut sut, depth.min(4));
     let mut rng = ses.rng.fork();
-    let traces = ses.scale(400, 8000);
+    let traces = ses.scale(400, 5000);
     let n_ops = ses.scale(24, 30);
     for i in 0..traces {
         for kind in [Kind::Plain, Kind::Flex, Kind::Tiered, Kind::TFlex, Kind::Immutable] {
